@@ -2,7 +2,7 @@
 from .. import env, histgen, session, wire, scripts, refmatch as rm
 from ..runner import Prop, Stage, Result
 
-PROFILE = dict(reuse=0.6, weights=dict(delete=14, bind=14, message=50, server_event=8, sync=6, enum=8))
+PROFILE = dict(reuse=0.6, weights=dict(newer=4, delete=14, bind=14, message=50, server_event=8, sync=6, enum=8))
 MALFORMED = ['(', 'a.b.c', '[x', 'x ! y ! z', 'wl_a@5', 'a(b)c', 'x, (', '! [', '5zz9.']
 
 
